@@ -1761,7 +1761,7 @@ pub fn build(full_name: &str, level: u8) -> Option<Scenario> {
             }
             s.clients_at = vec![1, 2];
             s.timeoutable = vec![];
-            s.transfer_targets = vec![1, 2, 3, 4, 9];
+            s.transfer_targets = vec![0, 1, 2, 3, 4, 9];
             s.cc_menu = vec![CcSpec::V1(1, 3)];
             if n.contains("-cc") {
                 // a pending transfer to a lagging voter meets a membership change of the target
